@@ -1,13 +1,15 @@
 import PhysisModel.Proofs.MdlGeometry
 import PhysisModel.Proofs.MdlPlaced
 import PhysisModel.Proofs.MdlFill
+import PhysisModel.Proofs.MdlRedundant
 import PhysisModel.Proofs.SoftFloat
 /-!
 # C06 — model parsing yields the stored geometry for every vertex layout
 
 Property theorems only.  `Spec/Mdl.lean` defines the format (`encodeMdl`) and what must be reported
 (`view`, `stdDecode`); `Model/Mdl.lean` is the executable model of `MDL::from_existing`; helper
-lemmas live in `Proofs/Mdl{Grammar,Layout,Geometry}.lean` and `Proofs/SoftFloat.lean`.
+lemmas live in `Proofs/Mdl{Grammar,Layout,Geometry,Fill,Placed,Redundant}.lean` and
+`Proofs/SoftFloat.lean`.
 
 Recorded finding `c06.blendweights-byte4`: the code decodes a (BlendWeights, Byte4) element with
 the tangent formula `2b/255 − 1` (fourth component ±1), the specification reads "bytes" as the
@@ -287,6 +289,174 @@ theorem c06_fill_generalises (m : AbstractModel) :
     encodeMdlF m ((modelData m).decls.map DeclFill.zero) = encodeMdl m ∧
       declFillsOk (modelData m).decls ((modelData m).decls.map DeclFill.zero) = true :=
   encodeMdlF_zero m
+
+/-! ### redundant header copies with arbitrary values
+
+A model file stores several facts twice (file header / LOD table / `ModelHeader`); `encodeMdl`
+writes consistent copies.  The reader uses one copy of each and never compares them, so the
+theorems above are restated for header records that differ from those of `m` in the fields that
+are never read (`Proofs/MdlRedundant.lean`).  The fields that *are* read after the grammar, found
+by reading `Model/Mdl.lean` and fixed in the relation `ReadsSame fh fh' md md'`:
+
+* `FileHeader`: `indexOffsets` (`readPart`) — nothing else;
+* `MeshLod` (each row): `meshIndex`, `meshCount` (`readLod`), `vertexDataOffset`
+  (`elementAddress`, `readStreams`) — nothing else;
+* `ModelData`: `decls`, `meshes` (`readPart`), `submeshes` (`readSubmeshes`), `shapes`,
+  `shapeMeshes`, `shapeValues` (`readShapes`), `boneNameOffsets`, `materialNameOffsets`
+  (`fromExisting`);
+* `ModelHeader`: `strings` (names of shapes, bones, materials), `lodCount` (the LOD loop).
+
+(`FileHeader.version` and `vertexDeclarationCount` are read by the grammar: they decide which
+`ModelData` the header stage returns, and play no role afterwards.) -/
+
+/-- **The reader ignores every field outside `ReadsSame`.**  For any two pairs of header records
+that agree on the fields listed above, any file and any LOD number, the geometry stage is the
+same program run: `readLod` returns the same parts (or the same error), the name lookups return
+the same names, the LOD loop has the same bound, and so the whole stage after the two header
+parses (`afterHeaders`: names, then every LOD) returns the same result.  Equalities between
+programs — no well-formedness, nothing about the contents of `file`.
+
+Fields thereby proved to be ignored after the grammar: of `FileHeader` all but `indexOffsets`
+(`version`, `stackSize`, `runtimeSize`, `vertexDeclarationCount`, `materialCount`, `vertexOffsets`,
+`vertexBufferSize`, `indexBufferSize`, `lodCount`, `indexBufferStreamingEnabled`,
+`hasEdgeGeometry`); of every `MeshLod` row `mid`, `edgeGeometryDataOffset`, `polygonCount`,
+`vertexBufferSize`, `indexBufferSize`, `indexDataOffset`; of `ModelHeader` all but `strings` and
+`lodCount`; of `ModelData` `elementIds`, `attributeNameOffsets`, `terrainShadowMeshes`,
+`terrainShadowSubmeshes`, `boneTables`, `boneTablesV2`, `submeshBoneMapSize`,
+`submeshBoneMapSizeV2`, `submeshBoneMap`, `paddingAmount`, `unknownPadding`, `boundingBoxes`,
+`boneBoundingBoxes`. -/
+theorem c06_reader_ignores_redundant (fh fh' : FileHeader) (md md' : ModelData)
+    (hrs : ReadsSame fh fh' md md') (file : Array UInt8) :
+    (∀ i, readLod file fh' md' i = readLod file fh md i) ∧
+    md'.boneNameOffsets.mapM (nameAt md'.header.strings) =
+      md.boneNameOffsets.mapM (nameAt md.header.strings) ∧
+    md'.materialNameOffsets.mapM (nameAt md'.header.strings) =
+      md.materialNameOffsets.mapM (nameAt md.header.strings) ∧
+    md'.header.lodCount = md.header.lodCount ∧
+    afterHeaders file fh' md' = afterHeaders file fh md :=
+  ⟨readLod_congr hrs file, by rw [hrs.boneNameOffsets, hrs.strings],
+    by rw [hrs.materialNameOffsets, hrs.strings], hrs.lodCount, afterHeaders_congr hrs file⟩
+
+/-- `afterHeaders` is what `MDL::from_existing` (model) does after the two header parses: whenever
+the header stage succeeds with `fh`, `md`, the result is `afterHeaders` on the whole file and those
+records, packed together with the records themselves. -/
+theorem c06_reader_after_headers (file rest rest' : Bytes) (fh : FileHeader) (md : ModelData)
+    (hfh : parseFileHeader file = .ok (fh, rest)) (hmd : parseModelData fh rest = .ok (md, rest')) :
+    fromExisting file =
+      (afterHeaders file.toArray fh md).map fun v =>
+        { fileHeader := fh, modelData := md, lods := v.lods,
+          affectedBoneNames := v.affectedBoneNames, materialNames := v.materialNames } :=
+  fromExisting_of_headers hfh hmd
+
+/-- **Parsing any file that holds the sections of `m` and whose header records agree with those of
+`m` on the fields that are read reports exactly the stored geometry of `m`** — together with the
+header records as the file stores them.  Generalises `c06_parse_any_file_partial` (the instance
+`fh' = fileHeader m`, `md' = modelData m`, `ReadsSame.refl`): the header stage may return *any*
+records `fh'`, `md'` with `ReadsSame (fileHeader m) fh' (modelData m) md'`, i.e. every field listed
+under `c06_reader_ignores_redundant` may hold any value the grammar accepts.  `HasSections m file`:
+the geometry sections of `m` occupy `file` from `dataStart m` on (the second half of `SameLayout`).
+"partial": the excluded (BlendWeights, Byte4) class of finding `c06.blendweights-byte4`, as for
+`c06_parse_encode_partial`. -/
+theorem c06_parse_reads_same_partial (m : AbstractModel) (file rest rest' : Bytes)
+    (fh' : FileHeader) (md' : ModelData)
+    (hfh : parseFileHeader file = .ok (fh', rest))
+    (hmd : parseModelData fh' rest = .ok (md', rest'))
+    (hrs : ReadsSame (fileHeader m) fh' (modelData m) md')
+    (hsec : HasSections m file)
+    (h : WF m = true) (hw : noWeightsByte4 m = true) (v : View) (hv : view m = some v) :
+    fromExisting file =
+      .ok { fileHeader := fh', modelData := md', lods := v.lods,
+            affectedBoneNames := v.affectedBoneNames, materialNames := v.materialNames } :=
+  hsec.parse_readsSame hfh hmd hrs h hw v hv
+
+/-- `c06_parse_any_file_partial` is the instance of `c06_parse_reads_same_partial` with the records
+of `m` themselves -/
+theorem c06_reads_same_generalises (m : AbstractModel) (file : Bytes) (hl : SameLayout m file) :
+    HasSections m file ∧ ReadsSame (fileHeader m) (fileHeader m) (modelData m) (modelData m) ∧
+    ∃ rest rest', parseFileHeader file = .ok (fileHeader m, rest) ∧
+      parseModelData (fileHeader m) rest = .ok (modelData m, rest') :=
+  ⟨hl.geom, ReadsSame.refl _ _, hl.hdr⟩
+
+/-- **Parsing reports the stored geometry whatever the redundant header copies hold**: for every
+well-formed model `m` and every replacement `ρ` (`Spec/MdlRedundant.lean`) the file
+`encodeMdlR m ρ` — the file of `encodeMdl m` in which
+
+* the file header's `stackSize`, `runtimeSize`, `vertexOffsets[0..2]`, `vertexBufferSize[0..2]`,
+  `indexBufferSize[0..2]` and `lodCount`, and
+* in each of the three rows of the LOD table `edgeGeometryDataOffset`, `vertexBufferSize`,
+  `indexBufferSize` and `indexDataOffset`
+
+hold arbitrary values — is read to the header records exactly as stored (`ρ.fh (fileHeader m)`,
+`ρ.md (modelData m)`) and to the same vertices, indices, sub-meshes, shapes, raw streams and names
+as `encodeMdl m`.  No hypothesis on `ρ`: the grammar's consistency predicate `modelDataOk` does not
+mention a replaced field, and both header blocks keep their length.  The fields that stay as
+`encodeMdl` computes them are the ones the reader uses: `FileHeader.indexOffsets`,
+`MeshLod.vertexDataOffset`, `MeshLod.meshIndex` / `meshCount`, `ModelHeader.lodCount` (and
+`FileHeader.version` / `vertexDeclarationCount` for the grammar).  "partial": the excluded
+(BlendWeights, Byte4) class of finding `c06.blendweights-byte4`, as for `c06_parse_encode_partial`. -/
+theorem c06_parse_redundant_partial (m : AbstractModel) (h : WF m = true)
+    (hw : noWeightsByte4 m = true) (ρ : Redundant) (v : View) (hv : view m = some v) :
+    fromExisting (encodeMdlR m ρ) =
+      .ok { fileHeader := ρ.fh (fileHeader m), modelData := ρ.md (modelData m), lods := v.lods,
+            affectedBoneNames := v.affectedBoneNames, materialNames := v.materialNames } :=
+  parse_encodeR m h hw ρ v hv
+
+/-- the reported view, as the caller sees it: the same for every `ρ` -/
+theorem c06_parse_redundant_view_partial (m : AbstractModel) (h : WF m = true)
+    (hw : noWeightsByte4 m = true) (ρ : Redundant) (v : View) (hv : view m = some v) :
+    (fromExisting (encodeMdlR m ρ)).map MDL.view = .ok v :=
+  parse_encodeR_view m h hw ρ v hv
+
+/-- `encodeMdlR` generalises `encodeMdl`: the identity replacement gives the same file, so
+`c06_parse_encode_partial` is the instance `ρ = Redundant.id` -/
+theorem c06_redundant_generalises (m : AbstractModel) : encodeMdlR m Redundant.id = encodeMdl m :=
+  encodeMdlR_id m
+
+/-- `c06_parse_redundant_partial` is an instance of `c06_parse_reads_same_partial`: on
+`encodeMdlR m ρ` the header stage returns the replaced records, they agree with the records of `m`
+on every field that is read, and the sections lie at `dataStart m` -/
+theorem c06_redundant_reads_same (m : AbstractModel) (h : WF m = true) (ρ : Redundant) :
+    parseFileHeader (encodeMdlR m ρ) =
+        .ok (ρ.fh (fileHeader m), encModelData m.version (ρ.md (modelData m)) ++ sections m) ∧
+    parseModelData (ρ.fh (fileHeader m)) (encModelData m.version (ρ.md (modelData m)) ++ sections m) =
+        .ok (ρ.md (modelData m), sections m) ∧
+    ReadsSame (fileHeader m) (ρ.fh (fileHeader m)) (modelData m) (ρ.md (modelData m)) ∧
+    HasSections m (encodeMdlR m ρ) :=
+  ⟨(parse_headersR m h ρ).1, (parse_headersR m h ρ).2, readsSame_redundant ρ _ _,
+    hasSections_redundant m ρ⟩
+
+/-- every redundant copy set to `0xDEADBEEF`, the file header's LOD count to `0xEF` -/
+def sampleRedundant : Redundant := Redundant.const 0xDEADBEEF 0xEF
+
+/-- non-vacuity of `c06_parse_redundant_partial` / `c06_parse_reads_same_partial` /
+`c06_reader_ignores_redundant`: the hypotheses hold on `sampleModel` with `sampleRedundant`; the
+replaced records satisfy `ReadsSame` (decided by evaluation, independently of
+`readsSame_redundant`) although every replaced field differs from the consistent copy, and the file
+differs from `encodeMdl sampleModel` -/
+example : WF sampleModel = true ∧ noWeightsByte4 sampleModel = true ∧
+    (view sampleModel).isSome = true ∧
+    ReadsSame (fileHeader sampleModel) (sampleRedundant.fh (fileHeader sampleModel))
+      (modelData sampleModel) (sampleRedundant.md (modelData sampleModel)) ∧
+    (let a := fileHeader sampleModel; let b := sampleRedundant.fh a
+     a.stackSize ≠ b.stackSize ∧ a.runtimeSize ≠ b.runtimeSize ∧ a.vertexOffsets ≠ b.vertexOffsets ∧
+     a.vertexBufferSize ≠ b.vertexBufferSize ∧ a.indexBufferSize ≠ b.indexBufferSize ∧
+     a.lodCount ≠ b.lodCount) ∧
+    (List.zip (modelData sampleModel).lods (sampleRedundant.md (modelData sampleModel)).lods).all
+      (fun (a, b) => a.edgeGeometryDataOffset != b.edgeGeometryDataOffset &&
+        a.vertexBufferSize != b.vertexBufferSize && a.indexBufferSize != b.indexBufferSize &&
+        a.indexDataOffset != b.indexDataOffset) = true ∧
+    encodeMdlR sampleModel sampleRedundant ≠ encodeMdl sampleModel := by
+  decide +kernel
+
+/-- sanity (test, labelled as such): the executable model, run on the concrete file with every
+redundant copy overwritten, reports the specified view and the header fields as stored -/
+example : ((fromExisting (encodeMdlR sampleModel sampleRedundant)).map MDL.view).toOption =
+      view sampleModel ∧
+    (fromExisting (encodeMdlR sampleModel sampleRedundant)).toOption.map
+      (fun x => (x.fileHeader.stackSize, x.fileHeader.lodCount,
+        x.modelData.lods.map (·.indexDataOffset))) =
+      some (0xDEADBEEF, 0xEF, [0xDEADBEEF, 0xDEADBEEF, 0xDEADBEEF]) := by
+  decide +kernel
 
 /-- the finding, on one element: the byte 128 under (BlendWeights, Byte4) is reported as
 `2·128/255 − 1` by the code's switch, not as the byte value 128 -/
